@@ -178,3 +178,168 @@ func VP_C01_typed_intarray() {
 	vp.Assert(r.pos == len(doc)-1, "decoding consumes exactly the document")
 	vp.Cover("end")
 }
+
+// arrays and lists beyond any internal block size (256-element / 1 KiB / 4 KiB
+// scratch buffers): every element arbitrary, sizes concrete; decoded in order
+// into typed and `any` targets, encoded to the reference bytes.
+func VP_C01_typed_bigarrays() {
+	kind := vp.Choice(4)
+	n := []int{257, 129, 1025, 300}[kind]
+	if vp.Tier() == 1 && vp.Bool() {
+		n = []int{1100, 1030, 4100, 1100}[kind]
+	}
+	vp.SizeBound(8*n + 64)
+	var doc []byte
+	ints := make([]int32, n)
+	longs := make([]int64, n)
+	bytes := vp.Bytes(n)
+	switch kind {
+	case 0:
+		doc = append([]byte{TagIntArray}, vpBE(uint64(n), 4)...)
+		for i := range ints {
+			ints[i] = vp.Int32()
+			doc = append(doc, vpBE(uint64(uint32(ints[i])), 4)...)
+		}
+	case 1:
+		doc = append([]byte{TagLongArray}, vpBE(uint64(n), 4)...)
+		for i := range longs {
+			longs[i] = vp.Int64()
+			doc = append(doc, vpBE(uint64(longs[i]), 8)...)
+		}
+	case 2:
+		doc = append([]byte{TagByteArray}, vpBE(uint64(n), 4)...)
+		doc = append(doc, bytes...)
+	default:
+		doc = append([]byte{TagList, TagShort}, vpBE(uint64(n), 4)...)
+		for i := range ints {
+			ints[i] = int32(vp.Int16())
+			doc = append(doc, vpBE(uint64(uint16(ints[i])), 2)...)
+		}
+	}
+	r := &vpByteReader{b: append(append([]byte{}, doc...), 0x77)}
+	d := NewDecoder(r)
+	d.NetworkFormat(true)
+	toAny := vp.Bool()
+	var got any
+	var err error
+	var enc any
+	switch {
+	case toAny:
+		_, err = d.Decode(&got)
+	case kind == 0:
+		var v []int32
+		_, err = d.Decode(&v)
+		got = v
+	case kind == 1:
+		var v []int64
+		_, err = d.Decode(&v)
+		got = v
+	case kind == 2:
+		var v []byte
+		_, err = d.Decode(&v)
+		got = v
+	default:
+		var v []int16
+		_, err = d.Decode(&v)
+		got = v
+	}
+	vp.Assert(err == nil, "decodes")
+	vp.Assert(r.pos == len(doc), "decoding consumes exactly the document")
+	const label = "large arrays and lists decode completely and in order"
+	switch kind {
+	case 0:
+		v, ok := got.([]int32)
+		vp.Assert(ok && len(v) == n, label)
+		for i := range v {
+			vp.Assert(v[i] == ints[i], label)
+		}
+		enc = ints
+	case 1:
+		v, ok := got.([]int64)
+		vp.Assert(ok && len(v) == n, label)
+		for i := range v {
+			vp.Assert(v[i] == longs[i], label)
+		}
+		enc = longs
+	case 2:
+		v, ok := got.([]byte)
+		vp.Assert(ok && len(v) == n, label)
+		for i := range v {
+			vp.Assert(v[i] == bytes[i], label)
+		}
+		enc = bytes
+	default:
+		sh := make([]int16, n)
+		for i := range sh {
+			sh[i] = int16(ints[i])
+		}
+		enc = sh
+		if toAny {
+			v, ok := got.([]any)
+			vp.Assert(ok && len(v) == n, label)
+			for i := range v {
+				vp.Assert(v[i] == any(sh[i]), label)
+			}
+		} else {
+			v, ok := got.([]int16)
+			vp.Assert(ok && len(v) == n, label)
+			for i := range v {
+				vp.Assert(v[i] == sh[i], label)
+			}
+		}
+	}
+	var w vpBuf
+	e := NewEncoder(&w)
+	e.NetworkFormat(true)
+	vp.Assert(e.Encode(enc, "") == nil, "encodes")
+	vp.Assert(len(w.b) == len(doc), "large arrays and lists encode to the reference bytes")
+	for i := range doc {
+		vp.Assert(w.b[i] == doc[i], "large arrays and lists encode to the reference bytes")
+	}
+	vp.Cover("end")
+}
+
+// vpAnySeq: a one-element []any of each element kind with its reference bytes
+// (the list-versus-typed-array choice follows the first element).
+func vpAnySeq(k int) ([]any, []byte) {
+	switch k {
+	case 0:
+		x := vp.Int32()
+		return []any{x}, append([]byte{TagIntArray, 0, 0, 0, 1}, vpBE(uint64(uint32(x)), 4)...)
+	case 1:
+		x := vp.Int64()
+		return []any{x}, append([]byte{TagLongArray, 0, 0, 0, 1}, vpBE(uint64(x), 8)...)
+	case 2:
+		x := vp.Int16()
+		return []any{x}, append([]byte{TagList, TagShort, 0, 0, 0, 1}, vpBE(uint64(uint16(x)), 2)...)
+	case 3:
+		x := vp.Int8()
+		return []any{x}, []byte{TagByteArray, 0, 0, 0, 1, byte(x)}
+	case 4:
+		x := string(vp.Bytes(1))
+		vp.Assume(x[0] < 0x80)
+		return []any{x}, append([]byte{TagList, TagString, 0, 0, 0, 1}, vpStr(x)...)
+	}
+	return []any{}, []byte{TagList, TagEnd, 0, 0, 0, 0}
+}
+
+// the encoding of a value is a function of the value, not of what the process
+// encoded before it (per-type caches must not remember content-dependent
+// choices): any sequence kind after any other gives the reference bytes.
+func VP_C01_encode_history() {
+	first, _ := vpAnySeq(vp.Choice(6))
+	second, ref := vpAnySeq(vp.Choice(6))
+	var w0 vpBuf
+	e := NewEncoder(&w0)
+	e.NetworkFormat(true)
+	vp.Assert(e.Encode(first, "") == nil, "first value encodes")
+	var w vpBuf
+	e = NewEncoder(&w)
+	e.NetworkFormat(true)
+	vp.Assert(e.Encode(second, "") == nil, "a later value of the same Go type encodes")
+	vp.Assert(len(w.b) == len(ref), "encoding does not depend on earlier encodes")
+	for i := range ref {
+		vp.Assert(w.b[i] == ref[i], "encoding does not depend on earlier encodes")
+	}
+	vp.Cover("end")
+}
